@@ -19,7 +19,7 @@ ExprClasses(c) ==
   CASE c = "path" -> {"ok", "ok-filter", "ok-escape", "ok-empty-result", "ok-empty-query", "ok-union", "ok-intersection", "ok-multiline", "ok-membership", "huge-literal", "syntax", "type", "name", "index", "illtyped-only-when-checked", "unterminated", "bad-regex"}
     [] c = "pointer" -> {"ok", "ok-root", "ok-escape", "ok-uri", "ok-nonascii", "ok-trailing-space", "unresolvable-key", "unresolvable-index", "into-scalar", "no-leading-slash"}
     [] c = "patch" -> {"ok", "ok-root", "ok-empty", "ok-escape", "non-object-member", "test-fails", "missing-target", "not-an-array", "malformed-json", "unknown-op", "missing-member", "bad-pointer", "undecodable"}
-DocClasses == {"object", "array", "object-utf16", "object-utf8-bom", "malformed", "malformed-scalar", "undecodable", "empty-file"}
+DocClasses == {"object", "array", "json-string", "deep-array", "object-utf16", "object-utf8-bom", "malformed", "malformed-scalar", "undecodable", "empty-file"}
 
 OptSet(c) == [debug : BOOLEAN, pretty : BOOLEAN, nue : BOOLEAN,                    \* global options
               inline : IF c = "patch" THEN {FALSE} ELSE BOOLEAN,                   \* expression inline or from a file
@@ -38,6 +38,8 @@ Init == /\ cmd \in Cmds
         /\ expr \in ExprClasses(cmd)
         /\ doc \in DocClasses
         /\ (opts.stdin => doc \notin {"undecodable", "object-utf16", "object-utf8-bom"})          \* standard input is text in the harness
+        \* a document that is a string (holding what looks like JSON) or 150 arrays deep: only with expressions that mean something on any document
+        /\ (doc \in {"json-string", "deep-array"} => (cmd = "path" \/ expr \in {"ok-root", "ok-empty"}))
         /\ (expr = "ok-trailing-space" => opts.inline)   \* a pointer read from a file ends at the line end: final blanks are the caller's only when inline
         /\ phase = "args"
         /\ exit = 99 /\ stderrLines = 0 /\ traceback = FALSE /\ wrote = FALSE
